@@ -18,14 +18,14 @@ def raw(sid, data):
 
 def to_net(ops, kinds, rng=None, pdrop=0.0):
     """conn -> tconn / wconn following the list `kinds` (cycled); with probability pdrop a disconnect becomes
-    'drop' (the socket is cut without a close handshake)"""
+    'drop' (the socket is cut without a close handshake) or 'reset' (closed with unread data: the server sees ECONNRESET)"""
     out, k = [], 0
     for op in ops:
         if op[0] == "conn":
             out.append(["wconn"] if kinds[k % len(kinds)] == "w" else ["tconn"])
             k += 1
         elif op[0] == "disc" and rng is not None and rng.random() < pdrop:
-            out.append(["drop", op[1]])
+            out.append([rng.choice(["drop", "reset"]), op[1]])
         else:
             out.append(op)
     return out
@@ -33,7 +33,7 @@ def to_net(ops, kinds, rng=None, pdrop=0.0):
 
 def as_disc(case):
     """the case with 'drop' written as 'disc' (for oracles that only know one way of leaving)"""
-    return (case[0], case[1], [["disc", op[1]] if op[0] == "drop" else op for op in case[2]])
+    return (case[0], case[1], [["disc", op[1]] if op[0] in ("drop", "reset") else op for op in case[2]])
 
 
 def kinds_of(ops):
@@ -87,7 +87,7 @@ def track_selection(case, obs):
             if reply == "Conn %d" % n:
                 open_s.add(n)
             n += 1
-        elif op[0] in ("disc", "drop"):
+        elif op[0] in ("disc", "drop", "reset"):
             open_s.discard(int(op[1])); sel.pop(int(op[1]), None)
         elif op[0] == "cmd":
             w = line_of(op).rstrip("\n").split(" ")
